@@ -1,6 +1,7 @@
 import WzVerif.Driver.Proto
 import WzVerif.Model.Http
 import WzVerif.Model.Date
+import WzVerif.Model.Containers
 import WzVerif.Driver.PyPrelude
 namespace Wz.Driver.C06
 open Wz Wz.Proto Wz.Http
@@ -92,6 +93,70 @@ def pair (wire : Str) (parsed : String) : String := hexStr wire ++ "|" ++ parsed
 
 def withStr (a : String) (f : Str → String) : Option String :=
   match unhexStr a with | some s => some (f s) | none => some badArgs
+
+
+/-! histories: header sets (C08's model of the mutators), cache-control and CSP assignment histories -/
+
+def plusListArg (s : String) : Option (List Str) :=
+  if s == "[]" then some [] else (s.splitOn "+").mapM unhexStr
+
+def hsOpArg (s : String) : Option HS.Op :=
+  match s.splitOn ":" with
+  | ["a", h] => (unhexStr h).map .add
+  | ["r", h] => (unhexStr h).map .remove
+  | ["d", h] => (unhexStr h).map .discard
+  | ["u", l] => (plusListArg l).map .update
+  | ["c"] => some .clear
+  | ["x", i] => (intArg i).map .delitem
+  | ["s", i, v] => do let i ← intArg i; let v ← unhexStr v; pure (.setitem i v)
+  | _ => none
+
+def hsOpsArg (s : String) : Option (List HS.Op) :=
+  if s == "[]" then some [] else (s.splitOn ",").mapM hsOpArg
+
+/-- run a history, collecting the exception class of every step (`ok` when none) -/
+def hsRunLog (c : HS.St) : List HS.Op → HS.St × List String
+  | [] => (c, [])
+  | op :: t =>
+    let o := HS.step c op
+    let r := hsRunLog o.st t
+    (r.1, (match o.res with | .ok _ => "ok" | .error e => e) :: r.2)
+
+def hsOut (c : HS.St) : String := strList c.headers ++ "|" ++ strList c.set ++ "|" ++ toString (HS.len c)
+
+def ccVal2Out : CCVal → String
+  | .none => "none" | .true_ => "true" | .false_ => "false"
+  | .int i => "i" ++ toString i | .str s => "s" ++ hexStr s
+
+def ccVal2Arg (s : String) : Option CCVal :=
+  if s == "none" then some .none else if s == "true" then some .true_ else if s == "false" then some .false_
+  else if s.startsWith "i" then (intArg (s.drop 1).toString).map .int
+  else if s.startsWith "s" then (unhexStr (s.drop 1).toString).map .str
+  else none
+
+def ccHOpArg (s : String) : Option CCOp :=
+  match s.splitOn ":" with
+  | ["t", k, ty, v] => do let k ← unhexStr k; let ty ← ccTypeArg ty; let v ← ccVal2Arg v; pure (.setTyped k ty v)
+  | ["i", k, v] => do let k ← unhexStr k; let v ← optArg unhexStr v; pure (.setItem k v)
+  | ["p", k] => (unhexStr k).map .popItem
+  | ["x", k] => (unhexStr k).map .delTyped
+  | ["c"] => some .clear
+  | _ => none
+
+def ccQueryArg (s : String) : Option (Str × CCVal × CCType) :=
+  match s.splitOn ":" with
+  | [k, e, ty] => do let k ← unhexStr k; let e ← ccVal2Arg e; let ty ← ccTypeArg ty; pure (k, e, ty)
+  | _ => none
+
+def cspHOpArg (s : String) : Option CspOp :=
+  match s.splitOn ":" with
+  | ["s", k, v] => do let k ← unhexStr k; let v ← optArg unhexStr v; pure (.set k v)
+  | ["d", k] => (unhexStr k).map .del
+  | ["c"] => some .clear
+  | _ => none
+
+def opsArg {α : Type} (f : String → Option α) (s : String) : Option (List α) :=
+  if s == "[]" then some [] else (s.splitOn ",").mapM f
 
 def handle : Handler
   -- single functions (hostile text)
@@ -205,6 +270,31 @@ def handle : Handler
     match authArg ty ps tok with
     | some a => some (exc id (do let w ← wwwToHeader a; pure (pair w (exc authOut (wwwFromHeader w)))))
     | none => some badArgs
+  | "hist.set", [init, ops] =>
+    -- HeaderSet(init), the history, to_header, parse_set_header: log | final | wire | parsed
+    match listArg init, hsOpsArg ops with
+    | some init, some ops =>
+      let r := hsRunLog (HS.construct init) ops
+      let w := HS.toHeader r.1
+      let p := HS.construct (parseSetHeader w)
+      some (outList id r.2 ++ "|" ++ hsOut r.1 ++ "|" ++ hexStr w ++ "|" ++ hsOut p)
+    | _, _ => some badArgs
+  | "hist.cc", [d, ops, queries] =>
+    match pairsOptArg d, opsArg ccHOpArg ops, opsArg ccQueryArg queries with
+    | some d, some ops, some qs =>
+      let d' := ccRun d ops
+      some (exc id (do
+        let w ← dumpHeaderDict d'
+        let p ← parseCacheControl w
+        let gs ← qs.mapM fun (k, e, ty) => getCacheValue p k e ty
+        pure (pair w (pairsOpt p ++ "|" ++ outList ccVal2Out gs))))
+    | _, _, _ => some badArgs
+  | "hist.csp", [d, ops] =>
+    match pairsStrArg d, opsArg cspHOpArg ops with
+    | some d, some ops =>
+      let w := dumpCsp (cspRun d ops)
+      some (pair w (pairsStr (parseCsp w)))
+    | _, _ => some badArgs
   | "b64.enc", [b] =>
     match unhex b with
     | some b => some (hexStr (b64Encode b))
@@ -227,6 +317,19 @@ def handle : Handler
   | "nf.list", [h] => withStr h fun h =>
     let p := parseListHeader h
     strList p ++ "#" ++ strList (parseListHeader (dumpHeaderList p))
+  | "nf.range", [h] => withStr h fun h =>
+    exc (fun p => rangeOut p ++ "#" ++ (match p with
+      | some r => exc rangeOut (parseRangeHeader (rangeToHeader r))
+      | none => "~")) (parseRangeHeader h)
+  | "nf.crange", [h] => withStr h fun h =>
+    exc (fun p => crangeOut p ++ "#" ++ (match p with
+      | some c => exc crangeOut (parseContentRangeHeader (contentRangeToHeader c))
+      | none => "~")) (parseContentRangeHeader h)
+  | "nf.csp", [h] => withStr h fun h =>
+    let p := parseCsp h
+    pairsStr p ++ "#" ++ pairsStr (parseCsp (dumpCsp p))
+  | "nf.dict", [h] => withStr h fun h =>
+    exc (fun p => pairsOpt p ++ "#" ++ exc pairsOpt (dumpHeaderDict p >>= parseDictHeader)) (parseDictHeader h)
   | "date.fmt", [t] =>
     match natArg t with
     | some t => some (hexStr (Wz.Date.httpDate t))
